@@ -72,7 +72,7 @@ def confirm(mid):
           and res["patch_only"]["compiled"] and not res["patch_only"]["failed"]
           and res["patch_and_demo"]["compiled"] and len(res["patch_and_demo"]["failed"]) >= 1
           and res["demo_only"]["passed"] > base - 1)
-    meta.update(id=mid, property=mid.split("-")[0], confirmed=ok, confirmation=res,
+    meta.update(id=mid, property=mid.split("-")[0][:3], confirmed=ok, confirmation=res,
                 repo_head=sh(f"git -C {REPO} rev-parse --short HEAD")[1].strip(),
                 what_ran="scratch worktree of /repo HEAD: `cargo test --workspace --no-fail-fast --offline` with demo.diff only, "
                          "with patch.diff only, and with both")
@@ -98,7 +98,7 @@ def detect(mid, tier="quick", props=None):
         rc, out = sh(f"git -C {REPO} worktree add --detach {DETECT_WT} HEAD")
         assert rc == 0, out
     sh("git checkout -q --detach $(git -C /repo rev-parse HEAD) && git checkout -- . && git clean -fdq", cwd=DETECT_WT)
-    pid = mid.split("-")[0]
+    pid = mid.split("-")[0][:3]
     results = {}
     env = dict(VERIF_REPO=DETECT_WT, VERIF_KANI_TARGET_SUFFIX="-detect" + TAG,
                VERIF_EVIDENCE_DIR=os.path.join(VERIF, ".work", "detect-evidence" + TAG),
